@@ -16,7 +16,7 @@ from oracles.smc_oracles import check_evidence
 LEVEL = "exploration"
 RULE = ("complete choice tree (no deviation bound) of the real SMC loop with N in {2,3}: initial population and population "
         "after each of the first 2 iterations chosen from {flat, spread 3, spread 1e3} (the initial one also from a population with a zero-likelihood particle), every resampling index tuple with "
-        "non-zero probability; schedules: fixed n=1,2,3, adaptive (eff 0.5/0.9), adaptive+min_step; each execution is paired "
+        "non-zero probability; schedules: fixed n=1,2,3, adaptive (eff 0.5/0.9), adaptive+min_step, floor+cap, and runs that the step cap ends below temperature 1; each execution is paired "
         "with a run sharing all choices that adds n_final_samples or a checkpoint callback (every 1 / 2); continuous 2-D runs are interrupted at every user-callable call and resumed from the last checkpoint (pickled bytes and the live dictionary) and must report the same ratios and evidence. "
         "non-trivial = at least one step whose incremental weights are not all equal")
 ASSUMPTIONS = [
@@ -32,6 +32,9 @@ SCHEDULES = [
     {"adaptive": True, "target_efficiency": 0.9},
     {"adaptive": True, "min_step": 0.4},
     {"adaptive": True, "target_efficiency": (0.3, 0.8), "max_n_steps": 3, "min_step": 0.2},
+    # runs that the step cap ends below temperature 1
+    {"adaptive": False, "n_steps": 3, "max_n_steps": 2},
+    {"adaptive": True, "target_efficiency": 0.9, "min_step": 0.2, "max_n_steps": 2},
 ]
 
 
